@@ -170,7 +170,8 @@ def parse_overlay(path):
                 if p.startswith('props='): pr = p[6:].split(',')
             sect = ('items', pr)
         elif st.startswith('@sites'):
-            ov['sites'].append(re.match(r'@sites\s+"(.*)"', st).group(1))
+            sm = re.match(r'@sites\s+"(.*)"(?:\s+props=(\S+))?', st)
+            ov['sites'].append((sm.group(1), sm.group(2).split(',') if sm.group(2) else None))
         else:
             buf.append(line)
     flush()
@@ -274,6 +275,7 @@ class Weaver:
                         sp['ovpath'] = ov['path']
                     o0['fns'].update(ov['fns'])
                     o0['structs'] += [x for x in ov['structs'] if x not in o0['structs']]
+                    o0['sites'] += [x for x in ov['sites'] if x not in o0['sites']]
                     o0['items'] += [(pr or ov['props'], t) for pr, t in ov['items']]
                     o0.setdefault('anchors', []).extend([dict(a, props=a['props'] or ov['props']) for a in ov.get('anchors', [])])
                     o0.setdefault('consts', {}).update(ov.get('consts') or {})
@@ -371,6 +373,29 @@ class Weaver:
             self.rec('T7', rel, s, m.start(), m.group(0))
             edits.append((m.start(), m.end(), rep('use crate::vcell::RefCell;', m.group(0))))
 
+        # T13 range index through a Box<[T]> field followed by a method call:
+        #   `self.f[a .. b].copy_from_slice(x);` -> `let vslice_f = &mut *self.f; vslice_f[a .. b].copy_from_slice(x);`
+        # This spells out the reborrow that auto-deref performs (same MIR). Verus 0.2026.09.13 loses the typing of
+        # `IndexMut<Range>` when the receiver still carries the Box decoration (closure_ens axiom is keyed on `&mut [T]`),
+        # so the sub-slice would have no known length/content.
+        for m in re.finditer(r'(?m)^([ \t]*)self\.([a-z_0-9]+)(\[[^\]\n]+ \.\. [^\]\n]+\]\.copy_from_slice\()', s):
+            if not code(m.start(2)): continue
+            self.rec('T13', rel, s, m.start(), m.group(0))
+            a = m.start() + len(m.group(1)); b = m.start(3)
+            edits.append((a, b, rep(f"let vslice_{m.group(2)} = &mut *self.{m.group(2)}; vslice_{m.group(2)}", s[a:b])))
+
+        # T14 compound assignment whose right operand is a `ref` binding of the enclosing match arm:
+        #   `Closed(ref n) => { self.alloc -= n; }` -> `self.alloc -= *n;`
+        # (`impl SubAssign<&usize> for usize` forwards to the by-value impl; vstd has no spec for the by-reference impl
+        # and its spec-extension trait cannot be implemented outside vstd)
+        for m in re.finditer(r'(?m)^([ \t]*)([a-z_\.]+) (-=|\+=) ([a-z_]+);', s):
+            if not code(m.start(2)): continue
+            arm = s.rfind('=>', 0, m.start())
+            if arm < 0 or s.count('\n', arm, m.start()) > 1: continue
+            if not re.search(r'\(ref ' + re.escape(m.group(4)) + r'\)\s*$', s[:arm].rstrip()[-80:]): continue
+            self.rec('T14', rel, s, m.start(), m.group(0))
+            edits.append((m.start(4), m.end(4), rep('*' + m.group(4), m.group(4))))
+
         # visibility widening
         for st in ov['structs']:
             m = re.search(r'(?m)^([ \t]*)((?:pub(?:\s*\([a-z]+\))?\s+)?)(struct|enum) ' + re.escape(st) + r'\b[^{;]*\{', s)
@@ -429,6 +454,8 @@ class Weaver:
             edits.append((m.end(), m.end(), rep(': ' + bound, '')))
 
         fns, _ = index_functions(s, mask)
+        claimed = set()      # line starts that carry a @before site clause
+        verified_spans = []  # (open, close) of function bodies under disposition verify
         byq = {}
         for f in fns:
             byq.setdefault(f['qual'], []).append(f)
@@ -508,6 +535,8 @@ class Weaver:
                         if isinstance(item, tuple):
                             for tm in re.finditer(r'(?m)^\s*\[((?:C\d+)(?:,C\d+)*)\]', item[1]):
                                 tags |= set(tm.group(1).split(','))
+                            for tm in re.finditer(r'/\*@p ((?:C\d+)(?:,C\d+)*)\*/', item[1]):
+                                tags |= set(tm.group(1).split(','))
             info['props'] = sorted(set(props) | tags)
             if spec['pin'] and spec['pin'] != info['body_sha']:
                 self.lost.append(f"{rel}: fn {qual}: pinned body changed ({info['body_sha']} != {spec['pin']})")
@@ -523,6 +552,7 @@ class Weaver:
             for n, (_, clause) in enumerate(spec.get('spec', [])):
                 edits.append((f['open'], f['open'], ins(f"{cid0}:spec#{n+1}", props, '\n' + clause + '\n' + ind)))
             if disp in ('verify', 'nodecreases'):
+                verified_spans.append((f['open'], f['close']))
                 for n, (_, clause) in enumerate(spec.get('start', [])):
                     edits.append((f['open'] + 1, f['open'] + 1, ins(f"{cid0}:start#{n+1}", props, '\n' + clause)))
                 for n, (_, clause) in enumerate(spec.get('end', [])):
@@ -540,6 +570,7 @@ class Weaver:
                         p = f['open'] + idxs[nth - 1]
                         if kind == 'before':
                             ls = s.rfind('\n', 0, p) + 1
+                            claimed.add(ls)
                             edits.append((ls, ls, ins(f"{cid0}:before[{needle}#{nth}]", props, clause + '\n')))
                         else:
                             i = p; d = 0
@@ -550,6 +581,21 @@ class Weaver:
                                     elif s[i] == ';' and d == 0: break
                                 i += 1
                             edits.append((i + 1, i + 1, ins(f"{cid0}:after[{needle}#{nth}]", props, '\n' + clause)))
+
+        # @sites: every occurrence of an emission-site needle must carry a @before clause of some verified function;
+        # an unclaimed occurrence inside a verified body gets the failing guard `unexpected-emission-site`,
+        # an occurrence outside every verified body cannot be guarded at all (lost => UNDECIDED).
+        for needle, sprops in ov.get('sites', []):
+            for m in re.finditer(re.escape(needle), s):
+                if not code(m.start()): continue
+                ls = s.rfind('\n', 0, m.start()) + 1
+                if ls in claimed: continue
+                if any(a < m.start() < b for a, b in verified_spans):
+                    claimed.add(ls)
+                    edits.append((ls, ls, ins(f"{ov['path']}:unexpected-emission-site[{needle}]@{s.count(chr(10), 0, ls) + 1}", sprops or ov['props'],
+                                              'assert(false); // unexpected-emission-site\n')))
+                else:
+                    self.lost.append(f"{rel}: site \"{needle}\" at line {s.count(chr(10), 0, ls) + 1} is outside every verified function")
 
         # nested modules
         for m in re.finditer(r'(?m)^([ \t]*)(pub(?:\s*\([a-z]+\))?\s+)?mod\s+([a-z_0-9]+)\s*;', s):
